@@ -28,6 +28,8 @@ theorem iStep_own {s loc locB} (op : Op) (h : OwnL fl s loc locB)
   case push => exact iPush_own h
   case tryPush => exact iTryPush_own h
   case pop => exact iPop_own h
+  case popIf b => exact iPopIf_own b h
+  case fromIter hint n => exact iFromIter_own hint n h
   case insert i => exact iInsert_own i h
   case tryInsert i => exact iTryInsert_own i h
   case remove i => exact iRemove_own i h
@@ -38,7 +40,7 @@ theorem iStep_own {s loc locB} (op : Op) (h : OwnL fl s loc locB)
   case resizeWith n => exact iResizeWith_own n h
   case extSlice n => exact iExtSlice_own n h
   case extWithin a b => exact iExtWithin_own a b h
-  case extIter hint n => exact iExtIter_own n s h
+  case extIter hint n => exact iExtend_own n h
   case clone => exact iClone_own h
   case append n => exact iAppend_own n h
   case splitOff a => exact iSplitOff_own a h
@@ -60,6 +62,8 @@ theorem tStep_own {s loc locB} (op : Op) (h : OwnL fl s loc locB) (ht : s.v.h.th
   case push => exact tPush_own h ht hal
   case tryPush => exact h
   case pop => exact iPop_own h
+  case popIf b => exact h
+  case fromIter hint n => exact tFromIter_own hint n h ht hal
   case insert i => exact tInsert_own i h ht hal
   case tryInsert i => exact h
   case remove i => exact iRemove_own i h
@@ -70,7 +74,7 @@ theorem tStep_own {s loc locB} (op : Op) (h : OwnL fl s loc locB) (ht : s.v.h.th
   case resizeWith n => exact h
   case extSlice n => exact tExtSlice_own n h ht hal
   case extWithin a b => exact tExtWithin_own a b h ht hal
-  case extIter hint n => exact tExtIter_own hint n h ht hal
+  case extIter hint n => exact tExtend_own hint n h ht hal
   case clone => exact tClone_own h
   case append n => exact tAppend_own n h ht hal
   case splitOff a => exact tSplitOff_own a h
